@@ -18,7 +18,13 @@ def unit_kani_l0(tier, prop):
     return kani_l0.run(tier, prop)
 
 
+def unit_kani_l3(tier, prop):
+    from .units import kani_l3
+    return kani_l3.run(tier, prop)
+
+
 UNITS = {
+    "kani_l3": unit_kani_l3,
     "kani_l0": unit_kani_l0,
     "verus_memory": lambda tier, prop: unit_verus_memory(tier),
     "kani_l2": unit_kani_l2,
@@ -35,7 +41,12 @@ PROP_UNITS = {
     "C08": ["verus_memory", "kani_l0"],
     "C09": ["verus_memory", "kani_l2"],
     "C10": ["verus_memory"],
-    "C19": ["kani_l2", "verus_memory", "kani_l0"],
+    "C11": ["kani_l3", "kani_l2"],
+    "C12": ["kani_l3"],
+    "C13": ["kani_l3", "verus_memory"],
+    "C14": ["kani_l3"],
+    "C18": ["kani_l3", "kani_l2"],
+    "C19": ["kani_l2", "verus_memory", "kani_l0", "kani_l3"],
 }
 
 
@@ -89,25 +100,61 @@ def replay(prop, path):
     return 1
 
 
-HOOK_COMMITS = ["b0eef22"]
+HOOK_COMMITS = ["b0eef22", "5de7463"]
 
 MEM_NOTE = ("Assumes the std contracts listed in evidence.trusted_base (iterator find, copy_from_slice, to_vec, Vec length bound), "
             "Verus/Z3 soundness, usize == 64 bit; error texts and debug_log! bodies are not verified; allocation failure is outside the model.")
+L2_NOTE = ("Trusted: the x86 oracle (kani/spec/x86spec.rs, hand-written from the SDM), iced-x86 (decoder output shapes = its op_code_info tables), "
+           "the contract models of the register file / memory / trace layer (each proved against the real text in its own unit), Kani/CBMC. "
+           "Quick tier: memory shapes restricted to [base64+disp] and composed with the L1 operand proof; wide MUL/IMUL/DIV/IDIV split into a "
+           "fixed-register all-values half and a value-bounded routing half (labelled bounded). Results cached by content hash of the extracted text.")
+L3_NOTE = ("Trusted: contracts of the decoder (iced), of the dispatcher (havoc) and of the memory layer (Verus unit); async erased (native configuration); "
+           "HashMap replaced by a finite-map shim; hook count, execute loop, pipe history and rendering lists are bounded (bounds per obligation in evidence).")
+
+
+def _c(engine, category, ref, technique, text, note):
+    return dict(engine=engine, category=category, design_ref=ref, technique=technique, text=text, note=note)
+
 
 CLAIMS = {
-    "C08": dict(engine="verus", category="proof", design_ref="5/C08, 3.5",
-                technique="Verus contracts on real memory.rs text (whole-view postconditions, overflow/bounds obligations) + byte-map lemmas",
-                text="Unbounded proof on the real text of mem_read_bytes / mem_write_bytes / collect_mem_error_hints: Ok iff the range lies in one area with the permission, result/effect equals the byte-map update, Err changes nothing, no arithmetic overflow or slice panic for any (address, length); lemmas lift the contracts to the byte-map reading (read returns the most recent write). The little-endian glue (mem_read_N/mem_write_N) is a separate Kani unit.",
-                note=MEM_NOTE),
-    "C09": dict(engine="verus", category="proof", design_ref="5/C09, 3.5",
-                technique="Verus contracts on real memory.rs text: permission bit required for Ok, Err leaves the view unchanged",
-                text="Unbounded proof that read needs PROT_READ, write PROT_WRITE, fetch PROT_EXEC, mem_prot changes exactly one mask (<= 7) and a denied access changes nothing; instruction-level paths are added by the Kani L2 unit (memory only reachable through the contracted accessors).",
-                note=MEM_NOTE),
-    "C10": dict(engine="verus", category="proof", design_ref="5/C10, 3.5",
-                technique="Verus representation invariant (pairwise disjoint, no wrap) as requires/ensures of every mutator of the area list, decreases for the retry loops",
-                text="Unbounded proof that every mutator of state.memory preserves 'areas pairwise disjoint and not wrapping', that creation is rejected exactly on a conflict, that 'anywhere' allocation terminates (decreases) and returns a fresh area of the requested length/content, and that resizing succeeds exactly when no other area starts inside the new extent, keeping the common prefix and zero-filling growth.",
-                note=MEM_NOTE),
+    "C01": _c("kani", "other", "5/C01, 10.1-10.2", "Kani harness per (iced Code, operand shape): real mnemonic_*/instr_*/calculate_* text vs x86 oracle, named obligations",
+              "For each of the 385 64-bit-decodable Codes of the supported mnemonics, over fully symbolic registers, flags, XMM and memory: GPRs, XMM, memory, RIP and segment bases after the real instruction text equal the oracle's; forms of the committed baseline must keep executing. Complete per (form, shape) except the wide multiply/divide forms (bounded halves). Level 'other' because known findings (IDIV r/m64, stack slot convention) and bounded stand-ins are part of every run.", L2_NOTE),
+    "C02": _c("kani", "other", "5/C02, 10.1", "Kani: per-form flag obligations on the architecturally defined/affected masks + set_flags! contract (L0f)",
+              "CF/PF/ZF/SF/OF/DF equal the oracle wherever defined, all other RFLAGS bits preserved, for every operand value, incoming flag state and shift count; the real set_flags! body is proved against the contract its callers rely on.", L2_NOTE),
+    "C03": _c("kani", "other", "5/C03", "Kani: RIP obligation of every Jcc/JMP/JRCXZ/JECXZ/CALL/RET form vs oracle over all flag states/targets",
+              "RIP after every control-transfer form equals the oracle's for all RFLAGS, RCX, branch targets and indirect operands; complete per form. RET's target is a known finding (stack slot convention).", L2_NOTE),
+    "C04": _c("kani", "other", "5/C04, 8, 10.4", "Kani: stack-memory / RSP / fault obligations of PUSH/POP/CALL/RET vs oracle; known finding characterised by the shifted-convention oracle",
+              "The pinned tree uses a consistent one-slot-shifted stack convention that the existing tests pin: recorded as known findings; each is accepted only while the behaviour equals the oracle run with the shifted convention (so any other deviation is a violation). RSP arithmetic obligations are discharged.", L2_NOTE),
+    "C05": _c("kani", "proof", "5/C05, 10.2", "Kani L1: real instruction_operand + mem_addr vs oracle EA for every decoder-producible memory shape; LEA / moffs forms at L2",
+              "Effective address of every memory operand shape (base, index*scale, disp8/32, RIP/EIP-relative, absolute, moffs, FS/GS, 67h, all segment prefixes) equals the oracle's incl. wrap-around; LEA results without segment base; immediates and register operands decoded as the CPU sees them.", L2_NOTE),
+    "C06": _c("kani+verus", "other", "5/C06", "Kani: Err-iff-fault obligations per form (#DE incl. quotient overflow, alignment, memory faults) + panic-freedom; Verus: memory Ok-iff contracts",
+              "A form returns Err exactly when the oracle faults and never panics; memory accesses are refused exactly outside one area with the permission. Known finding: IDIV r/m64. Wide DIV/IDIV arithmetic is value-bounded in the quick tier.", L2_NOTE),
+    "C07": _c("kani", "proof", "5/C07, 3.3", "Kani: real reg_read_*/reg_write_*/128-bit accessors vs array contract for all 86 registers, prior contents and values; exhaustive table check on the real crate",
+              "Complete over all registers x contents x values: aliasing, preserved/zeroed upper bits, frame, rejection without state change, no panic. Histories follow by induction over the per-call postconditions.",
+              "HashMap replaced by a finite-map shim; lookup tables replaced by their contracts, whose contents are compared with the real tables by exhaustive evaluation (86 rows)."),
+    "C08": _c("verus+kani", "proof", "5/C08, 3.5", "Verus contracts on real memory.rs text (whole-view postconditions, overflow/bounds obligations) + byte-map lemmas; Kani: typed accessors",
+              "Unbounded proof on the real text of mem_read_bytes / mem_write_bytes / collect_mem_error_hints: Ok iff the range lies in one area with the permission, result/effect equals the byte-map update, Err changes nothing, no arithmetic overflow or slice panic for any (address, length); lemmas lift the contracts to the byte-map reading. Kani proves the 1/2/4/8/16-byte accessors are the little-endian glue over them.", MEM_NOTE),
+    "C09": _c("verus+kani", "other", "5/C09", "Verus: permission bit required for Ok, Err leaves the view unchanged; Kani L2: stores/loads of every memory form refused per permission, memory unchanged on Err",
+              "Read needs PROT_READ, write PROT_WRITE, fetch PROT_EXEC, mem_prot changes exactly one mask; every instruction form reaches memory only through the contracted accessors and leaves memory unchanged when it fails. The implicit stores of PUSH/CALL inherit the C04 known finding (they are checked modulo the slot shift).", MEM_NOTE),
+    "C10": _c("verus", "proof", "5/C10, 3.5", "Verus representation invariant (pairwise disjoint, no wrap) as requires/ensures of every mutator of the area list, decreases for the retry loops",
+              "Unbounded proof that every mutator of state.memory preserves 'areas pairwise disjoint and not wrapping', creation is rejected exactly on a conflict, 'anywhere' allocation terminates and returns a fresh area of the requested content, resizing succeeds exactly when no other area starts inside the new extent, keeping the common prefix and zero-filling growth.", MEM_NOTE),
+    "C11": _c("kani", "other", "5/C11, 10.1", "Kani: real step()/execute() against contracts of decoder, dispatcher and hook layer; RET finish signal at L2",
+              "step(): finished/limit/fetch-error steps fail and change nothing; RIP pre-advanced; exactly one dispatch; count +1 iff an instruction executed; finished iff code end / top-level RET / stop; a step after the finish fails and runs nothing (complete, loop-free). execute(): bounded to limits <= 2.", L3_NOTE),
+    "C12": _c("kani", "other", "5/C12, 10.1", "Kani: real hooks.rs with k <= 3 instrumented hooks of symbolic outcome (bounded) + step() against the hook contract (complete)",
+              "Order, at-most-once, short-circuit on Handled/stop, error propagation, running flag, refusal of nested registration, registration after failures, persistence of modifications, per-mnemonic lookup; bracketing and RIP pre-advance proved on step().", L3_NOTE),
+    "C13": _c("kani+verus", "proof", "5/C13", "Kani: real brk handler closure per call over every heap state earlier calls can produce (abstract heap) + Verus contracts of resize / anywhere allocation",
+              "brk(0) returns the current break; brk(p >= base) requests exactly resize(base, p - base), on success break == p == RAX; failures leave the break; first call allocates a fresh area. Persistence of bytes and disjointness follow from the Verus contracts of mem_resize_section / mem_init_zero_anywhere.", L3_NOTE),
+    "C14": _c("kani", "other", "5/C14", "Kani: real pipe/read/write handler closures on a bounded history (one pipe, write <= 3 bytes, two reads <= 4)",
+              "FIFO order without loss or duplication across a partial read, read count = min(requested, available), untouched guest bytes, foreign descriptors left to other hooks. Bounded stand-in (never counted as proof); descriptor numbers are fixed by the harness (opaque keys).", L3_NOTE),
+    "C18": _c("kani", "other", "5/C18", "Kani: real add_trace for an arbitrary last entry (complete); trace/call-stack requests of every control form at L2; renderers bounded",
+              "A trace event is requested iff control is transferred, with kind, target, source and RIP as the recorder expects; add_trace appends/merges/levels correctly and never fails; CALL pushes / RET pops the call stack; trace() and call_stack() return Ok for <= 2 entries incl. negative levels.", L3_NOTE),
+    "C19": _c("kani+verus", "other", "5/C19", "panic-freedom obligations harvested from every unit (Kani built-in checks on the real text, Verus overflow/bounds VCs); rejected forms return Err",
+              "After decode (iced, trusted), every decoder-producible instruction of every Code of the supported mnemonics runs without panic/overflow/bounds failure in the real text, unsupported/unimplemented forms return Err and change nothing, the step skeleton, hooks, trace recorder and memory accessors are panic-free. Termination: no loops above the memory layer except execute().", L2_NOTE),
 }
 
-NOT_APPLICABLE = {p: "check not built yet in this session (machinery under construction, see DESIGN.md section 9)" for p in
-                  ["C01", "C02", "C03", "C04", "C05", "C06", "C07", "C11", "C12", "C13", "C14", "C15", "C16", "C17", "C18", "C19", "C20"]}
+NOT_APPLICABLE = {
+    "C15": "not claimed yet: the loader iterates over types of the external `elf` crate whose parser cannot be brought under either verifier within the session; see DESIGN.md 10.8",
+    "C16": "not claimed: 'all byte strings' is decided by the `elf` crate's parser (a trusted dependency outside the contract boundary); the loader's own arithmetic is covered only where the memory contracts apply (DESIGN.md 10.8)",
+    "C17": "not claimed yet: bounded Kani unit for init_stack_program_start_impl not built in this session (init_stack itself is proved in the Verus unit); DESIGN.md 10.8",
+    "C20": "not claimed yet: determinism is a corollary of the functional postconditions plus a source scan that is not built yet (DESIGN.md 5/C20)",
+}
